@@ -1,0 +1,61 @@
+//go:build verif
+
+package syncserver
+
+import (
+	"context"
+	"encoding/gob"
+	"io"
+	"net"
+	"time"
+
+	log "github.com/sirupsen/logrus"
+
+	"github.com/projectcalico/calico/typha/pkg/snapcache"
+	"github.com/projectcalico/calico/typha/pkg/syncproto"
+)
+
+// Verification-only re-exports (compiled only with -tags verif).
+
+type verifConn struct{ net.Conn }
+
+func (verifConn) SetWriteDeadline(time.Time) error { return nil }
+func (verifConn) Close() error                     { return nil }
+
+// VerifConn is a server-side connection object wired to an in-memory writer
+// instead of a socket, so that the real streamSnapshotToClient /
+// sendDeltaUpdatesToClient / sendMsg can be run synchronously.
+type VerifConn struct{ h *connection }
+
+// VerifNewConn builds a connection as Server.serve + doHandshake would have
+// left it (gob encoding, no compression), writing to w; flush is called after
+// every message has been encoded.
+func VerifNewConn(ctx context.Context, cancel context.CancelFunc, config *Config, cache BreadcrumbProvider, w io.Writer, flush func() error) *VerifConn {
+	h := &connection{
+		ID:                   1,
+		config:               config,
+		cxt:                  ctx,
+		cancelCxt:            cancel,
+		cache:                cache,
+		syncerType:           syncproto.SyncerTypeFelix,
+		conn:                 verifConn{},
+		connW:                w,
+		encoder:              gob.NewEncoder(w),
+		flushWriter:          flush,
+		logCxt:               log.WithField("verif", true),
+		perSyncerConnMetrics: makePerSyncerConnMetrics(syncproto.SyncerTypeFelix),
+	}
+	return &VerifConn{h: h}
+}
+
+// StreamSnapshot re-exports streamSnapshotToClient.
+func (v *VerifConn) StreamSnapshot(crumb *snapcache.Breadcrumb) error {
+	return v.h.streamSnapshotToClient(v.h.logCxt, crumb)
+}
+
+// SendDeltas re-exports sendDeltaUpdatesToClient (runs on the caller's goroutine
+// until the connection's context is cancelled or the client falls behind).
+func (v *VerifConn) SendDeltas(crumb *snapcache.Breadcrumb) {
+	v.h.shutDownWG.Add(1)
+	v.h.sendDeltaUpdatesToClient(v.h.logCxt, crumb)
+}
